@@ -26,6 +26,14 @@ for path in sorted(glob.glob(os.path.join(HERE, 'seeded', '*', 'meta.json'))):
             title = re.sub(r'^(C\d+ )?[Cc]hange \d+\s*(\(BONUS[^)]*\))?\s*(--|—|:|-)\s*', '', title)
             break
     meta['summary'] = title
+    rec = meta.get('reconfirmed')
+    if rec and not rec.get('still_breaks'):
+        # a later fix: commit in /repo removed the mechanism this change relied on: it no longer breaks the property on the current base
+        meta[tier] = 'n/a'
+        meta['caught_by'] = 'no longer property-breaking on base %s (its own demonstration holds with the patch applied)' % rec.get('head')
+        json.dump(meta, open(path, 'w'), indent=1)
+        print(sid, tier, 'n/a (harmless on current base)', flush=True)
+        continue
     scratch = tempfile.mkdtemp(prefix='seedmx-')
     wt = os.path.join(scratch, 'repo')
     subprocess.run(['git', '-C', '/repo', 'worktree', 'add', '-q', '--detach', wt, 'HEAD'], check=True)
